@@ -164,6 +164,7 @@ func ruleFileOwnership(c *eng.Ctx) {
 		cl + "newSegment":                      "creates/opens the segment log file",
 		cl + "(*segment).Replace":              "renames the cleaned/truncated files over the old ones and reopens",
 		cl + "(*segment).Delete":               "removes the segment's files",
+		cl + "(*segment).newReplacement":       "discards files left by an interrupted clean/truncate before creating the replacement segment",
 		cl + "(*segment).rebuildIndex":         "removes a corrupt index before rebuilding it",
 		cl + "newIndex":                        "creates/opens and pre-allocates the index file",
 		cl + "(*index).writeAt":                "grows the index file and writes the mmap",
@@ -319,7 +320,8 @@ func ruleUnitDiscipline(c *eng.Ctx) {
 	}
 	slotCalls := map[string]bool{cl + "index.CountEntries": true, "builtin.len": true, "sort.Search": true}
 	sl := &eng.Slicer{P: p, MaxDepth: 4}
-	classify := func(v ssa.Value) (bad, unknown []string) {
+	var classify func(v ssa.Value, depth int) (bad, unknown []string)
+	classify = func(v ssa.Value, depth int) (bad, unknown []string) {
 		for _, lf := range sl.Leaves(v) {
 			switch lf.Kind {
 			case "const":
@@ -335,7 +337,28 @@ func ruleUnitDiscipline(c *eng.Ctx) {
 				} else if lf.Ref == cl+"index.Position" {
 					// Position()/entryWidth is a slot count; a bare byte position is not — accepted only under division (checked by shape below)
 				} else if !slotCalls[lf.Ref] {
-					unknown = append(unknown, "call "+lf.Ref+via(lf.Path))
+					// a helper of the package that computes the slot: classify what it returns
+					done := false
+					if call := eng.AsCall(lf.V); call != nil && depth < 2 {
+						if sc := call.Call.StaticCallee(); sc != nil && p.IsModuleFunc(sc) && strings.HasPrefix(ir.FuncKey(sc), cl) {
+							idx := 0
+							if e, ok := eng.Strip(lf.V).(*ssa.Extract); ok {
+								idx = e.Index
+							}
+							for _, r := range eng.Returns(sc) {
+								rv := eng.RetVals(r)
+								if idx < len(rv) {
+									b2, u2 := classify(rv[idx], depth+1)
+									bad = append(bad, b2...)
+									unknown = append(unknown, u2...)
+								}
+							}
+							done = true
+						}
+					}
+					if !done {
+						unknown = append(unknown, "call "+lf.Ref+via(lf.Path))
+					}
 				}
 			case "closure-param":
 				// the index parameter of a sort.Search callback is a slot
@@ -348,7 +371,7 @@ func ruleUnitDiscipline(c *eng.Ctx) {
 		return
 	}
 	report := func(construct, pos string, v ssa.Value) {
-		bad, unknown := classify(v)
+		bad, unknown := classify(v, 0)
 		switch {
 		case len(bad) > 0:
 			c.Violate(construct, pos, "an index slot (ordinal of an index entry) is derived from "+strings.Join(bad, ", ")+": slot = offset − base only holds on dense segments; after compaction the wrong entry (or none) is addressed")
